@@ -122,6 +122,7 @@ type Sim struct {
 	ctx     stepCtx
 	blocked map[[2]int]bool
 	noSweep bool
+	fixed   bool
 	closure bool
 	round   int
 
@@ -205,7 +206,12 @@ func (s *Sim) normaliseDigest(from *Node, b []byte) []byte {
 		s.checkEmittedDigest(from, id, addr, req, dec, full, b)
 	}
 	var perm []int
-	if s.closure {
+	if s.fixed {
+		perm = make([]int, len(full))
+		for i := range perm {
+			perm[i] = i
+		}
+	} else if s.closure {
 		// fair rotation while closing: every entry is advertised regularly
 		perm = make([]int, len(full))
 		for i := range perm {
@@ -220,7 +226,7 @@ func (s *Sim) normaliseDigest(from *Node, b []byte) []byte {
 	}
 	nb, err := gossip.VerifEncodeDigest(id, addr, req, out, from.maxPacket)
 	if err != nil {
-		s.c.Fatalf("harness: re-encode digest: %v", err)
+		s.c.Harnessf("re-encode digest: %v", err)
 	}
 	return nb
 }
@@ -435,6 +441,20 @@ func New(c *vlib.Case, p *Profile) *Sim {
 	if p.AllowNoSweep {
 		s.noSweep = c.Chance("noSweep", 1, 3)
 	}
+	s.build(N, nil)
+	return s
+}
+
+// NewFixed builds a cluster for a hand-written scenario: no draws are made
+// (digests keep the sorted order, deliveries advance the clock by 1us).
+func NewFixed(c *vlib.Case, p *Profile, packetSizes []int) *Sim {
+	s := &Sim{c: c, p: p, byAddr: map[string]*Node{}, blocked: map[[2]int]bool{}, fixed: true}
+	s.build(len(packetSizes), packetSizes)
+	return s
+}
+
+func (s *Sim) build(N int, fixedSizes []int) {
+	c, p := s.c, s.p
 	c.Header["nodes"] = N
 	c.Header["no_sweep"] = s.noSweep
 	var sizes []int
@@ -449,7 +469,11 @@ func New(c *vlib.Case, p *Profile) *Sim {
 		if !p.TinyPackets {
 			choices = choices[:5]
 		}
-		n.maxPacket = choices[c.Pick("maxPacket", len(choices))]
+		if fixedSizes != nil {
+			n.maxPacket = fixedSizes[i]
+		} else {
+			n.maxPacket = choices[c.Pick("maxPacket", len(choices))]
+		}
 		sizes = append(sizes, n.maxPacket)
 		n.cs = cluster.NewState(&cluster.Node{ID: n.id, ProxyAddr: "proxy-" + n.id, AdminAddr: "admin-" + n.id}, log.NewNopLogger())
 		n.mgr = upstream.NewLoadBalancedManager(n.cs, nil)
@@ -465,7 +489,6 @@ func New(c *vlib.Case, p *Profile) *Sim {
 	for _, n := range s.nodes[1:] {
 		s.doJoin(n, s.nodes[0])
 	}
-	return s
 }
 
 func (s *Sim) snapshotLocal(n *Node) {
@@ -548,7 +571,11 @@ func (s *Sim) deliverPkt(p pkt) {
 		s.causeDg = dg
 	}
 	// wall clocks strictly increase between arrivals
-	time.Sleep(time.Duration(s.c.Int("us", 1, 1000)) * time.Microsecond)
+	if s.fixed {
+		time.Sleep(time.Microsecond)
+	} else {
+		time.Sleep(time.Duration(s.c.Int("us", 1, 1000)) * time.Microsecond)
+	}
 	s.ctx.tStart = time.Now()
 	s.cause = &p
 	// relay detection: a delta from a third party advances dst's view of an owner
@@ -888,7 +915,7 @@ func (s *Sim) Step() {
 		}
 		b, err := gossip.VerifEncodeDelta(src.id, src.addr, gossip.VerifDelta{{ID: dst.id, Addr: dst.addr, Entries: es}}, 1<<16)
 		if err != nil {
-			c.Fatalf("harness: encode forged delta: %v", err)
+			c.Harnessf("encode forged delta: %v", err)
 		}
 		s.begin("deliver", dst)
 		s.ctx.sender = src
